@@ -812,13 +812,26 @@ func udpRelayCase(t *testing.T, id int, rep *vreport, rng *vrng, ci udpCipher, d
 		"drop_pct": r.drop, "dup_pct": r.dup, "hold_pct": r.hold, "stream": stream}
 	total := 20000 + rng.intn(60000)
 	data := rng.bytes(total)
+	// the write plan (empty writes included: they carry nothing and must disturb nothing) and, for
+	// message mode, the message sizes the reader has to see: a Write is cut into mss-sized messages
+	c.mu.Lock()
+	mss := int(c.kcp.mss)
+	c.mu.Unlock()
+	var plan, msgs []int
+	for off := 0; off < total; {
+		n := rng.pick(0, 1, 100, 1000, 1400, 5000)
+		if off+n > total {
+			n = total - off
+		}
+		plan = append(plan, n)
+		for k := n; k > 0; k -= mss {
+			msgs = append(msgs, min(k, mss))
+		}
+		off += n
+	}
 	go func() {
 		off := 0
-		for off < total {
-			n := rng.pick(1, 100, 1000, 1400, 5000)
-			if off+n > total {
-				n = total - off
-			}
+		for _, n := range plan {
 			c.SetWriteDeadline(time.Now().Add(10 * time.Second))
 			if _, err := c.Write(data[off : off+n]); err != nil {
 				return
@@ -836,7 +849,8 @@ func udpRelayCase(t *testing.T, id int, rep *vreport, rng *vrng, ci udpCipher, d
 	s.SetNoDelay(1, 10, 2, 1)
 	s.SetWindowSize(64, 64)
 	var got []byte
-	buf := make([]byte, 2048)
+	buf := make([]byte, 4096) // larger than any message: in message mode one Read = one message
+	nread := 0
 	healAt := time.Now().Add(1500 * time.Millisecond)
 	deadline := time.Now().Add(25 * time.Second)
 	for len(got) < total && time.Now().Before(deadline) {
@@ -847,6 +861,18 @@ func udpRelayCase(t *testing.T, id int, rep *vreport, rng *vrng, ci udpCipher, d
 		n, _ := s.Read(buf)
 		got = append(got, buf[:n]...)
 		rep.Monitors["udp_relay_prefix"]++
+		if !stream && n > 0 {
+			rep.Monitors["udp_relay_message_boundaries"]++
+			if nread >= len(msgs) || msgs[nread] != n {
+				want := -1
+				if nread < len(msgs) {
+					want = msgs[nread]
+				}
+				rep.violate("udp-relay-message-boundary", fmt.Sprintf("case %d (%s, fec %d/%d, message mode): Read %d returned %d bytes, the %d-th message the writer's session sent has %d (messages merged or split)", id, ci.name, ds, ps, nread, n, nread, want), replay)
+				return
+			}
+			nread++
+		}
 		if len(got) > total || !bytes.Equal(got[len(got)-n:], data[len(got)-n:len(got)]) {
 			rep.violate("udp-relay-prefix", fmt.Sprintf("case %d (%s, fec %d/%d, drop %d%% dup %d%% reorder %d%%): the bytes read from the accepted session are not a prefix of what the dialled session wrote (at %d of %d)", id, ci.name, ds, ps, r.drop, r.dup, r.hold, len(got), total), replay)
 			return
